@@ -953,6 +953,7 @@ func init() {
 			{Name: "FMT-STRINGER", What: "no numeric fmt verb is applied to a value with a String method in package sam", Floor: 5, Run: ruleFmtStringer},
 			{Name: "AUX-TYPED-VIEW", What: "aux text formatting prints only the tag, the type letters and the typed Value(), never raw payload bytes", Floor: 2, Run: ruleAuxTypedView},
 			{Name: "AUX-EMPTY", What: "sam.ParseAux lets a five-byte field (an empty value) through to the Z and H cases: the guards on the way demand no more (added for a defect of the unchanged tree, repaired 6d77b09)", Floor: 1, Run: ruleAuxEmpty},
+			{Name: "PATH-AUXALL", What: "bam.buildAux serialises every aux field of the record, the empty-valued ones too: a field that is left out is missing from the SAM line of the record read back (shared with C05; under C06 since ninth-round seed C06-j)", Floor: 1, Run: ruleAuxAll},
 			{Name: "HEX-TEXT", What: "an H field holds hexadecimal text: NewAux hex-encodes a Hex value, Aux.Value decodes, the formatters print the text without a hexadecimal verb (shared with C05; added for a defect of the unchanged tree, repaired 38d8749)", Floor: 4, Run: ruleHexText},
 			{Name: "TAB-AUXTEXT", What: "ParseAux's type letters = the formatter's kinds; array subtypes and their widths/signedness = the specification's; CIGAR letters agree between format and parse tables", Floor: 10, Run: ruleTabAuxText},
 			{Name: "LINE-READER", What: "sam.Reader.Read: owned line buffer, read-error/last-line classification over all cases, newline and CR cuts under the right guards", Floor: 3, Run: ruleLineReader, Canary: ruleLineReaderCanary, WantFail: []string{"bufc.(*Lines).Next#own-line"}, WantPassMin: 1},
